@@ -6,6 +6,7 @@ import (
 	"errors"
 	"fmt"
 	"net"
+	"runtime"
 	"strings"
 	"sync"
 	"sync/atomic"
@@ -50,6 +51,9 @@ type obs struct {
 	rawHTTP    []int
 	rawErr     error
 	readAhead  bool // repo HTTP client returned a connection holding read-ahead bytes
+
+	cancelDuring bool // the dial context was already cancelled when DialStream returned
+	cliGotConn   bool // DialStream returned a connection (with or without an error)
 
 	cDone, sDone atomic.Bool
 	hsDone       atomic.Bool // the client holds an established connection
@@ -257,6 +261,35 @@ func start(p plan, srv netio.StreamServer, shared *clients, gated bool) *session
 		defer o.cDone.Store(true)
 		defer cEnd.Close()
 		ctx := context.Background()
+		cancel := func() {}
+		if p.Cancel != "" {
+			ctx, cancel = context.WithCancel(ctx)
+			defer cancel()
+			switch p.Cancel {
+			case "before":
+				cancel()
+			case "w0", "w1", "w2":
+				k := int(p.Cancel[1] - '0')
+				cx.SetWriteFilter(func(idx int, frame []byte) [][]byte {
+					if idx == k {
+						cancel() // the k-th client message still goes out; the client then waits for the answer
+					}
+					return [][]byte{frame}
+				})
+			}
+		}
+		// dialed is called right after a DialStream returned: was the context cancelled while the
+		// client was still inside? Callers then cancel in any case (defer cancel()).
+		dialed := func(cc netio.Conn) {
+			o.cancelDuring = ctx.Err() != nil
+			o.cliGotConn = cc != nil
+			if p.Cancel != "" {
+				cancel()
+				for range 4 {
+					runtime.Gosched()
+				}
+			}
+		}
 		var cc netio.Conn
 		first := c2s // what the client still has to write itself after the handshake
 		cl := shared
@@ -273,6 +306,7 @@ func start(p plan, srv netio.StreamServer, shared *clients, gated bool) *session
 		switch {
 		case p.Proto == "ssnone" && p.Peer == "repo":
 			cc, o.cliErr = cl.ss.DialStream(ctx, p.Target.connAddr(), init)
+			dialed(cc)
 			o.cliOK = o.cliErr == nil
 		case p.Proto == "ssnone":
 			// Shadowsocks "none": the SOCKS5 address followed by the payload, in one segment
@@ -283,6 +317,7 @@ func start(p plan, srv netio.StreamServer, shared *clients, gated bool) *session
 			switch {
 			case p.Cmd == socks5.CmdConnect:
 				cc, o.cliErr = cl.s5.DialStream(ctx, p.Target.connAddr(), init)
+				dialed(cc)
 			case p.CliAuth:
 				authMsg := socks5.UserInfo{Username: p.Pres[0].U, Password: p.Pres[0].P}.AppendAuthMsg(nil)
 				o.cliBnd, o.cliErr = socks5.ClientRequestUsernamePassword(cEnd, authMsg, p.Cmd, p.Target.connAddr())
@@ -291,14 +326,17 @@ func start(p plan, srv netio.StreamServer, shared *clients, gated bool) *session
 			}
 			o.cliOK = o.cliErr == nil
 		case p.Proto == "socks5":
-			o.raw5 = rawSocks5(cEnd, p.Methods, p.Pres[0], p.Cmd, p.Target, p.Pushy)
+			o.raw5 = rawSocks5(cEnd, p.Methods, p.Pres[0], p.Cmd, p.Target, p.Pushy, p.EarlyData, init)
 			o.cliOK = o.raw5.Stage == "done" && o.raw5.Rep == 0 && !o.raw5.Pushed
 			if o.cliOK && p.Cmd == 1 {
 				cc = cEnd
-				first = append([][]byte{init}, c2s...)
+				if !o.raw5.EarlySent {
+					first = append([][]byte{init}, c2s...)
+				}
 			}
 		case p.Proto == "http" && p.Peer == "repo":
 			cc, o.cliErr = cl.http.DialStream(ctx, p.Target.connAddr(), init)
+			dialed(cc)
 			o.cliOK = o.cliErr == nil
 			if o.cliOK {
 				_, plain := cc.(tcpConn)
@@ -404,8 +442,8 @@ func viol(p plan, sig, format string, args ...any) string {
 }
 
 func (p plan) describe() string {
-	return fmt.Sprintf("proto=%s peer=%s srvAuth=%v users=%v cliAuth=%v presented=%v classes=%v methods(n=%d,wantPos=%d,pushy=%v) cmd=%d tcp=%v udp=%v target=%s badTarget=%q abort=%v code=%d local=%s srvPlan=%v/%v cliPlan=%v/%v glue=%v init=%d c2s=%v s2c=%v seed=%#x bufs=%d/%d writeTo=%v variant=%+v",
-		p.Proto, p.Peer, p.SrvAuth, p.Users, p.CliAuth, p.Pres, p.CredClass, len(p.Methods), p.WantPos, p.Pushy, p.Cmd, p.EnableTCP, p.EnableUDP,
+	return fmt.Sprintf("proto=%s peer=%s srvAuth=%v users=%v cliAuth=%v presented=%v classes=%v methods(n=%d,wantPos=%d,pushy=%v,early=%d) cancel=%q cmd=%d tcp=%v udp=%v target=%s badTarget=%q abort=%v code=%d local=%s srvPlan=%v/%v cliPlan=%v/%v glue=%v init=%d c2s=%v s2c=%v seed=%#x bufs=%d/%d writeTo=%v variant=%+v",
+		p.Proto, p.Peer, p.SrvAuth, p.Users, p.CliAuth, p.Pres, p.CredClass, len(p.Methods), p.WantPos, p.Pushy, p.EarlyData, p.Cancel, p.Cmd, p.EnableTCP, p.EnableUDP,
 		p.Target, p.BadTarget, p.Abort, p.Code, p.Local, p.SrvPlan, p.SrvCoalesce, p.CliPlan, p.CliCoalesce, p.Glue, p.InitPayload, p.C2S, p.S2C,
 		p.Seed, p.CliBuf, p.SrvBuf, p.CliWriteTo, p.Variant)
 }
@@ -424,6 +462,16 @@ func diffAt(a, b []byte) string {
 func check(p plan, o *obs) string {
 	if o.stalled != "" {
 		return viol(p, "stall", "the conversation stopped with both peers waiting for each other (%s); srvErr=%v cliErr=%v raw5=%+v rawHTTP=%v", o.stalled, o.srvErr, o.cliErr, o.raw5, o.rawHTTP)
+	}
+	if p.Cancel != "" && o.cancelDuring && o.cliErr != nil {
+		// The dial context was cancelled while the client was inside DialStream and the client reports
+		// an error: acceptable iff no connection was handed out. What the server did with the aborted
+		// conversation is not judged. (If the client reports success instead, everything below applies:
+		// a returned connection has to work.)
+		if o.cliGotConn {
+			return viol(p, "ctx-cancel", "DialStream returned both a connection and the error %v", o.cliErr)
+		}
+		return ""
 	}
 	init, c2s, s2c := p.traffic()
 	up := append([]byte(nil), init...)
@@ -726,6 +774,7 @@ var recHS = ev.New("C07", "handshake",
 	"rapid: protocol {socks5,http,ssnone} x peer {repo client code, harness RFC client} x server auth x user table (0..4 users, names related by prefix / shared "+
 		"password / name=password) x presented credentials (exact, other user's password, swapped, affixes, bit flip, fresh, lengths 1 and 255, all byte values, none) "+
 		"x target (IPv4, IPv6, IPv4-mapped, domain 1..255 bytes, boundary and random ports) x method list (1..255, server's method at any position or absent; the harness client optionally pushes its request after a refusal) "+
+		"x early application bytes behind the SOCKS5 request (same write / own write, before the reply) x dial-context cancellation for repo clients (before, during the k-th client write, after return) "+
 		"x command (CONNECT, UDP ASSOCIATE, unsupported) x TCP/UDP enablement x Proceed/Abort(any code) x per-direction read fragmentation x post-handshake traffic "+
 		"both ways (server-first data optionally in the same segment as the success reply). Oracle: membership in the user table, RFC 1928/1929/9110 reply tables "+
 		"decoded from the server's wire bytes by the harness, byte-exact stream comparison. Non-trivial: domain >= 64 bytes, or server auth enabled, or a read limit "+
@@ -733,7 +782,8 @@ var recHS = ev.New("C07", "handshake",
 	Require("proto:socks5", "proto:http", "proto:ssnone", "peer:raw", "peer:repo", "auth:on", "auth:off",
 		"cred:accepted", "cred:wrong-password", "cred:unknown-user", "cred:affix", "cred:len255", "cred:len1", "cred:anybytes",
 		"addr:v4", "addr:v6", "addr:mapped", "addr:domain", "dom>=64", "dom=255", "dom=1", "port=0", "port=65535",
-		"cmd:udp", "cmd:unsupported", "cmd:disabled", "method:absent", "pushy-after-refusal", "outcome:abort", "outcome:proceed",
+		"cmd:udp", "cmd:unsupported", "cmd:disabled", "method:absent", "pushy-after-refusal", "early:same-write", "early:own-write", "early:granted-stream", "ssnone:payload-with-address",
+		"ctx:before", "ctx:during-then-granted", "ctx:after-return-stream", "outcome:abort", "outcome:proceed",
 		"abort:unknown-code", "frag:midfield", "glue", "http:readahead", "http:retry-after-407", "stream:both-ways")
 
 func lenClass(n int) string {
@@ -896,6 +946,33 @@ func classify(p plan, o *obs) (key string, nontrivial bool, labels []string) {
 			if len(o.srvRecv) > 0 && len(o.cliRecv) > 0 {
 				add("stream:both-ways")
 			}
+		}
+	}
+	if o.raw5.EarlySent {
+		if p.EarlyData == 1 {
+			add("early:same-write")
+		} else {
+			add("early:own-write")
+		}
+		if o.srvHonoured && !p.Abort {
+			add("early:granted-stream")
+		}
+		outKey += fmt.Sprintf("|early%d", p.EarlyData)
+	}
+	if p.Proto == "ssnone" && p.InitPayload > 0 {
+		add("ssnone:payload-with-address")
+	}
+	if p.Cancel != "" {
+		outKey += "|ctx-" + p.Cancel
+		switch {
+		case p.Cancel == "before":
+			add("ctx:before")
+		case o.cancelDuring && o.srvHonoured && !p.Abort:
+			add("ctx:during-then-granted") // the proxy answered success to a client whose context was already cancelled
+		case o.cancelDuring:
+			add("ctx:during")
+		case o.cliOK && len(o.srvRecv) > 0:
+			add("ctx:after-return-stream") // cancelled only after DialStream returned; the connection carried client bytes afterwards
 		}
 	}
 	if p.BadTarget != "" {
